@@ -5,12 +5,15 @@
    History level (Proofs/StreamProof.v): C03_stream -- for every history of reads, sets, csets, deletes and publishes
    after the registration, with any number of other subscriptions registered, the channel carries in order exactly
    one event per accepted change that concerns it; C03_unsubscribe_removes + C03_silent_after_unsubscribe -- nothing
-   after its unsubscribe.  Not proved (compared by the correspondence and the event oracle): pdelete and import
-   inside the history, and other subscriptions being added or removed while the history runs. *)
+   after its unsubscribe.  Proofs/StreamAll.v extends both to histories of requests of EVERY kind: pattern deletes,
+   imports, publish streams, other clients' subscriptions coming and going, locks, ls-subscriptions, sessions
+   starting and ending (C03_stream_all, C03_silent_all).  Known findings: F2 (`K/#` and the key K itself), F24 (a
+   second subscribe under a transaction id that is still subscribed): the theorems are stated for histories
+   in which nobody subscribes or unsubscribes under the subscription's own id. *)
 From Coq Require Import List.
 Import ListNotations.
-From WB Require Import Base.Str Base.Json Model.Key Model.Store Model.Match Model.Subs Model.Entry Model.Core
-  Proofs.SubsFacts Proofs.MatchFacts Proofs.C03Proof Proofs.StreamProof.
+From WB Require Import Base.Str Base.Json Model.Key Model.Consts Model.Store Model.Match Model.Subs Model.Entry Model.Core
+  Proofs.SubsFacts Proofs.MatchFacts Proofs.CoreFacts Proofs.C01Proof Proofs.C03Proof Proofs.StreamProof Proofs.StreamAll.
 
 (* routing through the subscriber tree = the relation sub_match on the registered position *)
 Theorem C03_routing :
@@ -89,6 +92,80 @@ Theorem C03_silent_after_unsubscribe :
   stream i s os = [].
 Proof. exact silent_after_unsubscribe. Qed.
 Print Assumptions C03_silent_after_unsubscribe.
+
+(* ---- histories of requests of every kind (Proofs/StreamAll.v) ----
+   [K s]: the invariants of data tree and subscriber tree (they hold in every reachable state: C03_reach_K);
+   [Registered s sb]: sb is registered; [foreign sb o]: o is not a subscribe, psubscribe or unsubscribe under sb's own
+   (client, transaction id) and not the end of its client's session; [changes s o]: the accepted changes request o
+   makes in state s, in the order the server applies them (none if it is refused); [wanted sb cs]: one event per
+   change of cs that matches sb's pattern (a value-preserving write is passed over iff sb asked for unique values);
+   a session start or end counts as the run of requests it is (C07). *)
+Theorem C03_stream_all :
+  forall os s sb, K s -> Registered s sb -> Forall (foreign sb) os -> Forall import_ok os -> no_crash_run s os ->
+    stream (s_inst sb) s os = wanted_stream sb s os.
+Proof. exact stream_all. Qed.
+Print Assumptions C03_stream_all.
+
+(* what is owed for one elementary request, spelled out *)
+Theorem C03_wanted_for_a_request :
+  forall sb s o, elem o -> wanted_op sb s o = wanted sb (changes s o) /\
+    wanted sb (changes s o) =
+    flat_map (fun c => if sub_match (s_pat sb) (ch_path c) && (ch_changed c || negb (s_unique sb))
+                       then [event_for sb (ch_key c) (ch_val c) (ch_deleted c)] else []) (changes s o).
+Proof.
+  intros sb s o He. split; [|reflexivity].
+  destruct o; try contradiction; unfold wanted_op; cbn [expand fst snd wanted_run]; apply app_nil_r.
+Qed.
+Print Assumptions C03_wanted_for_a_request.
+
+Theorem C03_reach_K :
+  forall os, Forall import_ok os -> no_crash_run init os -> K (final init os).
+Proof. intros os. exact (reach_K os init K_init). Qed.
+Print Assumptions C03_reach_K.
+
+Theorem C03_subscribe_registers :
+  forall s c t k unique live inst, K s -> o_res (snd (do_subscribe s c t k unique live)) = RSub inst ->
+    inst = next_inst s /\ Registered (fst (do_subscribe s c t k unique live)) (Subscriber c t inst (kseg_parse k) unique false).
+Proof. exact subscribe_registers. Qed.
+Print Assumptions C03_subscribe_registers.
+
+Theorem C03_psubscribe_registers :
+  forall s c t p unique live inst, K s -> o_res (snd (do_psubscribe s c t p unique live)) = RSub inst ->
+    inst = next_inst s /\ Registered (fst (do_psubscribe s c t p unique live)) (Subscriber c t inst (kseg_parse p) unique true).
+Proof. exact psubscribe_registers. Qed.
+Print Assumptions C03_psubscribe_registers.
+
+(* after its unsubscribe the channel has no owner, and a channel without owner stays silent whatever follows *)
+Theorem C03_unsubscribe_gone :
+  forall s sb, K s -> Registered s sb -> assoc_get id_eqb (s_client sb, s_tid sb) (subscriptions s) = Some (s_pat sb) ->
+    Gone (fst (do_unsubscribe s (s_client sb) (s_tid sb))) (s_inst sb).
+Proof. exact unsubscribe_gone. Qed.
+Print Assumptions C03_unsubscribe_gone.
+
+Theorem C03_silent_all :
+  forall os s i, K s -> Gone s i -> Forall import_ok os -> no_crash_run s os -> stream i s os = [].
+Proof. exact silent_all. Qed.
+Print Assumptions C03_silent_all.
+
+(* non-vacuity: a pattern subscription followed through a wildcard delete, an import, another client's
+   subscription and session end with grave goods and last will *)
+Example C03_stream_all_nonvacuous :
+  let pre := [OConnected 7; OSet 7 (topic [s_SYS; s_clients; client_str 7; s_graveGoods]) (JArr [JStr [97;47;35]]) false;
+              OSet 7 (topic [s_SYS; s_clients; client_str 7; s_lastWill]) (JArr [JArr [JStr [97;47;119]; JNum [49]]]) false;
+              OPSubscribe 2 1 [97;47;35] false true] in
+  let s := final init pre in
+  let sb := Subscriber 2 1 0 (kseg_parse [97;47;35]) false true in
+  let os := [OSet 1 [97;47;98] JNull false; OSet 1 [97;47;99] JNull false; OSubscribe 7 3 [97;47;98] false false;
+             OPDelete 1 [97;47;63]; OSet 1 [97;47;100] JNull false; ODisconnected 7] in
+  Registered s sb /\ Forall (foreign sb) os /\ no_crash_run s os /\
+  stream 0 s os = [EPValue [([97;47;98], JNull)]; EPValue [([97;47;99], JNull)];
+                   EPDeleted [([97;47;98], JNull)]; EPDeleted [([97;47;99], JNull)];
+                   EPValue [([97;47;100], JNull)]; EPDeleted [([97;47;100], JNull)]; EPValue [([97;47;119], JNum [49])]] /\
+  wanted_stream sb s os = stream 0 s os.
+Proof.
+  cbv zeta. split; [vm_compute; now left|]. split; [repeat (apply Forall_cons; [cbn; try exact I; discriminate|]); apply Forall_nil|].
+  split; [vm_compute; repeat split; discriminate|]. split; vm_compute; reflexivity.
+Qed.
 
 Example C03_stream_nonvacuous :
   let s := fst (do_psubscribe (fst (do_psubscribe init 2 1 [97;47;35] true true)) 3 1 [97;47;63] false true) in
